@@ -109,7 +109,10 @@ class YncaProtocol(serial.threaded.LineReader):
         elif line == "@RESTRICTED":
             status = YncaProtocolStatus.RESTRICTED
 
-        match = re.match(r"@(?P<subunit>.+?):(?P<function>.+?)=(?P<value>.*)", line)
+        # DOTALL: lines are terminated by CRLF, a lone LF is part of the value
+        match = re.match(
+            r"@(?P<subunit>.+?):(?P<function>.+?)=(?P<value>.*)", line, re.DOTALL
+        )
         if match is not None:
             subunit = match.group("subunit")
             function = match.group("function")
